@@ -199,7 +199,40 @@ def r02_5(ctx):
     return rr
 
 
-RULES = [r02_1, r02_2, r02_3, r02_4, r02_5]
+PERMUTATION_ATTRS = {"axes", "_inverse_axes", "inverse_axes", "_axes"}
+
+
+def r02_6(ctx):
+    rr = RuleResult("R02.6", "COVER", "the symbolic conflict detector maps a Transpose through the same permutation attribute as Transpose._input_block_id (sibling agreement)", min_instances=1)
+    repo = ctx.repo
+    tr = repo.find_class("Transpose")
+    ibi = tr.methods.get("_input_block_id")
+    sm = repo.mod("dask_array._blockwise").functions.get("_symbolic_mapping")
+    need(ibi is not None and sm is not None, "Transpose._input_block_id / _symbolic_mapping")
+
+    def perm_attrs(nodes, recv):
+        return {n.attr for x in nodes for n in ast.walk(x) if isinstance(n, ast.Attribute) and isinstance(n.value, ast.Name) and n.value.id == recv and n.attr in PERMUTATION_ATTRS}
+
+    a_task = perm_attrs([ibi.node], "self")
+    branch = None
+    for n in body_walk(sm.node):
+        if isinstance(n, ast.If) and isinstance(n.test, ast.Call) and dotted(n.test.func) == "isinstance" and "Transpose" in unparse(n.test.args[1]):
+            branch = n
+    need(branch is not None, "the Transpose branch of _symbolic_mapping")
+    recv = unparse(branch.test.args[0])
+    a_sym = perm_attrs(branch.body, recv)
+    rr.inst(site(sm, branch)[:140], task_side=sorted(a_task), detector_side=sorted(a_sym))
+    if a_task != a_sym:
+        ctx.finding(
+            rr, site(sm, branch)[:140],
+            f"_symbolic_mapping follows a Transpose through {sorted(a_sym)} while Transpose._input_block_id (which decides the block a task really reads) uses {sorted(a_task)}: "
+            f"for non-self-inverse permutations the detector sees another access pattern than the graph has, misses a conflict, and fusion gives a shared input one block id per output block",
+            func=sm, node=branch,
+        )
+    return rr
+
+
+RULES = [r02_1, r02_2, r02_3, r02_4, r02_5, r02_6]
 
 LEVEL_TEXT = (
     "Static decision of sentence 3 of C02 (fusion preserves the output-block -> input-block mapping) as sibling agreement "
